@@ -45,6 +45,8 @@ inductive Err where
   | typeError            -- builtin `TypeError`
   | assertionError       -- a failed `assert`
   | unmodelled           -- a non-string hashable `type` (would become a non-string dictionary key)
+  | attributeError       -- builtin `AttributeError` (`__getattr__` of a name that starts with `_`)
+  | indexError           -- builtin `IndexError` (`Combine.__getitem__`)
   deriving Repr, DecidableEq
 
 namespace V
@@ -442,7 +444,53 @@ def mkCombine {D : Type} (tup : List D → D) (args : List (Option (Variable D))
           let ty : V := (getSlot vc (kType names)).getD (.str "")
           mkVariable names name (.fn getter) ty (setSlot vc (kType names) none)
 
+/-! ## attribute access (`__getattr__`, `__setattr__`, `Combine.__getitem__`) and the patched `Compose` -/
+
+/-- `var.<attr>` for an attribute that normal lookup does not find (lines 147-160; `getter`, `var_context`,
+`_vars` and the methods are found by normal lookup and never reach `__getattr__`): `AttributeError` for a name
+that starts with `_`, else `var_context[attr]`, `LenaAttributeError` when it is missing -/
+def getAttr {D : Type} (v : Variable D) (attr : String) : Except Err V :=
+  if attr.startsWith "_" then .error .attributeError
+  else
+    match getSlot v.varCtx (key names attr) with
+    | some x => .ok x
+    | none => .error .lenaAttributeError
+
+/-- `var.<attr> = value` (`__setattr__`, lines 162-164): `self.var_context[attr] = value`, for every name -/
+def setAttr {D : Type} (v : Variable D) (attr : String) (x : V) : Variable D :=
+  ⟨v.getter, setSlot v.varCtx (key names attr) (some x)⟩
+
+/-- `Compose.__init__` with `notes/C14_defect_2.patch`: `var_context["name"] = name` after
+`var_context.update(kwargs)`; without the keyword `name` is the last variable's name, which `var_context`
+already holds -/
+def mkComposeN {D : Type} (fx : Bool) (args : List (Option (Variable D))) (kw : Slots) : Except Err (Variable D) :=
+  match mkCompose names fx args kw with
+  | .error e => .error e
+  | .ok c =>
+    match getSlot kw (kName names) with
+    | some x => .ok ⟨c.getter, setSlot c.varCtx (kName names) (some x)⟩
+    | none => .ok c
+
+/-- `Compose.__init__` as the tree under test implements it: `nk = true` with the patch, `false` as pinned -/
+def mkComposeK {D : Type} (fx nk : Bool) (args : List (Option (Variable D))) (kw : Slots) : Except Err (Variable D) :=
+  if nk then mkComposeN names fx args kw else mkCompose names fx args kw
+
 end withNames
+
+/-- position of `l[i]` for a Python sequence of length `n`: negative indices count from the end, `IndexError`
+outside `-n … n-1` -/
+def pyIndex (n : Nat) (i : Int) : Except Err Nat :=
+  if 0 ≤ i then (if i.toNat < n then .ok i.toNat else .error .indexError)
+  else (if (-i).toNat ≤ n then .ok (n - (-i).toNat) else .error .indexError)
+
+/-- `Combine.__getitem__(index)` (line 309): `self._vars[index]` -/
+def combineGetItem {D : Type} (vars : List (Variable D)) (i : Int) : Except Err (Variable D) :=
+  match pyIndex vars.length i with
+  | .error e => .error e
+  | .ok j =>
+    match vars[j]? with
+    | some v => .ok v
+    | none => .error .indexError
 
 /-! ## specification vocabulary (executable, so that the driver can report it and the harness compare)
 
@@ -527,7 +575,7 @@ inductive Expr (D : Type) where
 mutual
 /-- evaluate a constructor expression: `none` = not a `Variable`; arguments are constructed left to
 right before the constructor runs, so the first failing argument decides the exception -/
-def evalExpr {D : Type} (names : List String) (fx : Bool) (tup : List D → D) :
+def evalExpr {D : Type} (names : List String) (fx nk : Bool) (tup : List D → D) :
     Expr D → Except Err (Option (Variable D))
   | .other => .ok none
   | .var name g ty kw =>
@@ -535,29 +583,127 @@ def evalExpr {D : Type} (names : List String) (fx : Bool) (tup : List D → D) :
     | .ok v => .ok (some v)
     | .error e => .error e
   | .compose args kw =>
-    match evalArgs names fx tup args with
+    match evalArgs names fx nk tup args with
     | .error e => .error e
     | .ok as =>
-      match mkCompose names fx as kw with
+      match mkComposeK names fx nk as kw with
       | .ok v => .ok (some v)
       | .error e => .error e
   | .combine args kw =>
-    match evalArgs names fx tup args with
+    match evalArgs names fx nk tup args with
     | .error e => .error e
     | .ok as =>
       match mkCombine names tup as kw with
       | .ok v => .ok (some v)
       | .error e => .error e
-def evalArgs {D : Type} (names : List String) (fx : Bool) (tup : List D → D) :
+def evalArgs {D : Type} (names : List String) (fx nk : Bool) (tup : List D → D) :
     List (Expr D) → Except Err (List (Option (Variable D)))
   | [] => .ok []
   | e :: r =>
-    match evalExpr names fx tup e with
+    match evalExpr names fx nk tup e with
     | .error err => .error err
     | .ok v =>
-      match evalArgs names fx tup r with
+      match evalArgs names fx nk tup r with
       | .error err => .error err
       | .ok vs => .ok (v :: vs)
 end
+
+/-! ## expression trees of any depth: reference data, listed types, syntactic well-formedness
+
+`exprData` is the data an expression computes by the property's statement (`vₙ.getter(…v₁.getter(x)…)` for a
+`Compose`, the tuple of the getters' results for a `Combine`), `exprTypes` the types it contributes to `compose`,
+`exprOKb names T` the syntactic conditions under which `Props/C14.lean` proves that the constructed variable
+satisfies the hypotheses of `compose_eq_sequence` (`T` = all types of the run).  All executable. -/
+
+mutual
+def exprData {D : Type} (tup : List D → D) : Expr D → D → D
+  | .var _ (.fn f) _ _, x => f x
+  | .var _ _ _ _, x => x
+  | .compose args _, x => composeData tup args x
+  | .combine args _, x => tup (combineData tup args x)
+  | .other, x => x
+def composeData {D : Type} (tup : List D → D) : List (Expr D) → D → D
+  | [], x => x
+  | e :: r, x => composeData tup r (exprData tup e x)
+def combineData {D : Type} (tup : List D → D) : List (Expr D) → D → List D
+  | [], _ => []
+  | e :: r, x => exprData tup e x :: combineData tup r x
+end
+
+/-- the `type` a constructor call is given, if it is a non-empty string -/
+def typeOf (ty : V) : List V :=
+  match ty with
+  | .str s => if s = "" then [] else [.str s]
+  | _ => []
+
+mutual
+def exprTypes {D : Type} (names : List String) : Expr D → List V
+  | .var _ _ ty _ => typeOf ty
+  | .compose args _ => argsTypes names args
+  | .combine _ kw => typeOf ((getSlot kw (kType names)).getD (.str ""))
+  | .other => []
+def argsTypes {D : Type} (names : List String) : List (Expr D) → List V
+  | [] => []
+  | e :: r => exprTypes names e ++ argsTypes names r
+end
+
+section exprOK
+variable (names : List String) (T : List V)
+
+/-- a `type` argument: absent / `""`, or a non-empty string of the alphabet that is not a reserved word -/
+def typeOKb (ty : V) : Bool :=
+  match ty with
+  | .str s => s == "" || (names.contains s && !(["name", "type", "compose", "dim", "combine"].contains s))
+  | _ => false
+
+/-- keyword arguments: over the alphabet, none of `type`, `compose`, `getter`, `dim`, no key named like a type
+of the run; `name` is handled by the caller -/
+def kwOKb (kw : Slots) : Bool :=
+  kw.length == names.length &&
+  (getSlot kw (kType names)).isNone && (getSlot kw (kCompose names)).isNone &&
+  (getSlot kw (kGetter names)).isNone && (getSlot kw (kDim names)).isNone &&
+  (List.range names.length).all (fun j => !(inT names T j) || (getSlot kw j).isNone || j == kName names)
+
+def nameKwOKb (kw : Slots) : Bool :=
+  match getSlot kw (kName names) with
+  | none => true
+  | some (.str _) => true
+  | some _ => false
+
+mutual
+def exprOKb {D : Type} : Expr D → Bool
+  | .var name g ty kw =>
+    (match g with | .fn _ => true | _ => false) &&
+    (match name with | .str _ => true | _ => false) &&
+    typeOKb names ty && kwOKb names T kw && (getSlot kw (kName names)).isNone
+  | .compose args kw => !args.isEmpty && argsOKb args && kwOKb names T kw && nameKwOKb names kw
+  | .combine args kw =>
+    !args.isEmpty && argsOKb args && kwOKb names T (setSlot kw (kType names) none) && nameKwOKb names kw &&
+    typeOKb names ((getSlot kw (kType names)).getD (.str ""))
+  | .other => false
+def argsOKb {D : Type} : List (Expr D) → Bool
+  | [] => true
+  | e :: r => exprOKb e && argsOKb r
+end
+
+/-- no type of the run is a reserved word -/
+def typesOKb : Bool :=
+  !(inT names T (kName names)) && !(inT names T (kType names)) && !(inT names T (kCompose names)) &&
+  !(inT names T (kDim names)) && !(inT names T (kCombine names))
+
+end exprOK
+
+/-- the alphabet holds every reserved word (`NamesOK` plus `dim`, `combine`, `getter`) -/
+def namesOK2b (names : List String) : Bool :=
+  namesOKb names && names.contains "dim" && names.contains "combine" && names.contains "getter"
+
+/-- the syntactic hypothesis of `compose_eq_sequence_expr` for a chain of expressions `es` applied to a value
+whose `context.variable` is `cv` -/
+def chainOKb {D : Type} (names : List String) (cv : Option V) (es : List (Expr D)) : Bool :=
+  let T := preHist names cv ++ argsTypes names es
+  namesOK2b names && !es.isEmpty && argsOKb names T es && typesOKb names T &&
+  (match cv with
+   | some (.dict p) => varWFb names p && noClashB names T p
+   | _ => true)
 
 end Lena.C14
